@@ -162,6 +162,7 @@ CHECKS["C20"] = {
         {"pkg": CLIENT, "run": "^TestVerif_C20_NoCrash$", "checks": {"quick": 3000, "thorough": 300000}, "shards": {"thorough": 8}},
         {"pkg": CLIENT, "run": "^TestVerif_C20_StreamTimeout$", "checks": {"quick": 300, "thorough": 20000}, "shards": {"thorough": 8}},
         {"pkg": SERVER, "run": "^TestVerif_C20_SigAfterRetry$", "checks": {"quick": 150, "thorough": 10000}, "shards": {"thorough": 8}},
+        {"pkg": SERVER, "run": "^TestVerif_C20_ServerNames$", "checks": {"quick": 150, "thorough": 10000}, "shards": {"thorough": 8}},
     ],
 }
 
